@@ -12,6 +12,9 @@ package main
 import (
 	"bytes"
 	"context"
+	"crypto/sha256"
+	"database/sql"
+	"encoding/hex"
 	"encoding/json"
 	"fmt"
 	"math/rand/v2"
@@ -26,14 +29,33 @@ import (
 	"github.com/basekick-labs/arc/internal/backup"
 	"github.com/basekick-labs/arc/internal/storage"
 	"github.com/basekick-labs/arc/internal/zzverif/vlib"
+	_ "github.com/mattn/go-sqlite3"
 	"github.com/rs/zerolog"
 )
 
 // Scenario is one evaluated case on one tree; it is also the replay unit.
 type Scenario struct {
-	Kind          string  `json:"kind"` // roundtrip | restore_fault | backup_fault
+	Kind          string  `json:"kind"` // roundtrip | restore_fault | backup_fault | restore_options
 	BackupFaults  []Fault `json:"backup_faults"`
 	RestoreFaults []Fault `json:"restore_faults"`
+	// BackupOptions{IncludeMetadata, IncludeConfig} of the backup this scenario
+	// takes (or, for restore-only scenarios, of the tree's base backup).
+	BackupMeta   bool `json:"backup_include_metadata"`
+	BackupConfig bool `json:"backup_include_config"`
+	// RestoreOptions: RestoreData is !SkipData (so that replay files written
+	// before these fields existed keep meaning data-only).
+	SkipData      bool `json:"restore_skip_data"`
+	RestoreMeta   bool `json:"restore_metadata"`
+	RestoreConfig bool `json:"restore_config"`
+}
+
+// restoreCombos: every RestoreOptions combination with RestoreData=true, as
+// {RestoreMetadata, RestoreConfig}.
+var restoreCombos = [][2]bool{{false, false}, {true, false}, {true, true}, {false, true}}
+
+func (sc Scenario) withRestore(combo [2]bool) Scenario {
+	sc.RestoreMeta, sc.RestoreConfig = combo[0], combo[1]
+	return sc
 }
 
 type finding struct {
@@ -64,6 +86,9 @@ type storedManifest struct {
 	TotalFiles     int64  `json:"total_files"`
 	TotalSizeBytes int64  `json:"total_size_bytes"`
 	SkippedFiles   int64  `json:"skipped_files"`
+	HasMetadata    bool   `json:"has_metadata"`
+	HasCatalog     bool   `json:"has_iceberg_catalog"`
+	HasConfig      bool   `json:"has_config"`
 	Databases      []struct {
 		Name         string `json:"name"`
 		FileCount    int    `json:"file_count"`
@@ -82,6 +107,7 @@ type backupOutcome struct {
 	ID        string            // backup id ("" if no backup directory was created)
 	Store     map[string]string // original path -> sha256 of <id>/data/<path>
 	Manifest  *storedManifest   // nil if no manifest.json was written
+	Extra     map[string]string // "metadata/arc.db", "metadata/iceberg-catalog.db", "config/arc.toml" -> sha256
 	Fired     []Call
 	WarnLines []string
 }
@@ -89,6 +115,7 @@ type backupOutcome struct {
 type restoreOutcome struct {
 	Ch        channels
 	Target    map[string]string // path -> sha256 in the restore target
+	Extra     map[string]string // same keys as backupOutcome.Extra: the restored installation files
 	Fired     []Call
 	WarnLines []string
 }
@@ -99,6 +126,43 @@ type env struct {
 	t       *tree
 	srcDir  string
 	seq     int
+	// live "installation" files next to the source data: shared SQLite database,
+	// arc.toml, and (for some trees) a separate Iceberg SQL catalog database
+	sqlitePath, configPath, catalogPath string
+}
+
+// makeInstallFiles creates a real small SQLite database (plus, for about half of
+// the trees, a separate Iceberg catalog database) and an arc.toml.
+func (e *env) makeInstallFiles(r *rand.Rand) {
+	dir := filepath.Join(e.scratch, fmt.Sprintf("t%d-inst", e.t.Index))
+	if err := os.MkdirAll(dir, 0o755); err != nil {
+		panic(err)
+	}
+	mk := func(p, table string) {
+		db, err := sql.Open("sqlite3", p)
+		if err != nil {
+			panic(err)
+		}
+		defer db.Close()
+		if _, err := db.Exec("CREATE TABLE " + table + " (id INTEGER PRIMARY KEY, v TEXT)"); err != nil {
+			panic(err)
+		}
+		for i := 0; i < 3+r.IntN(20); i++ {
+			if _, err := db.Exec("INSERT INTO "+table+" (v) VALUES (?)", fmt.Sprintf("tree%d-%s-%s", e.t.Index, table, hexid(r, 24))); err != nil {
+				panic(err)
+			}
+		}
+	}
+	e.sqlitePath = filepath.Join(dir, "arc.db")
+	mk(e.sqlitePath, "tokens")
+	if r.IntN(2) == 0 {
+		e.catalogPath = filepath.Join(dir, "iceberg-catalog.db")
+		mk(e.catalogPath, "iceberg_tables")
+	}
+	e.configPath = filepath.Join(dir, "arc.toml")
+	if err := os.WriteFile(e.configPath, []byte(fmt.Sprintf("# tree %d\n[storage]\nbackend = \"local\"\nsecret = \"%s\"\n", e.t.Index, hexid(r, 32))), 0o600); err != nil {
+		panic(err)
+	}
 }
 
 func (e *env) fresh(prefix string) string {
@@ -173,8 +237,20 @@ func (e *env) countCalls(store string, fs *FS) {
 	}
 }
 
+var extraKeys = []string{"metadata/arc.db", "metadata/iceberg-catalog.db", "config/arc.toml"}
+
 // runBackup runs CreateBackup of the tree into a fresh backup directory.
-func (e *env) runBackup(faults []Fault) *backupOutcome {
+func fileSum(p string) (string, bool) {
+	b, err := os.ReadFile(p)
+	if err != nil {
+		return "", false
+	}
+	h := sha256.Sum256(b)
+	return hex.EncodeToString(h[:]), true
+}
+
+func (e *env) runBackup(sc Scenario) *backupOutcome {
+	faults := sc.BackupFaults
 	out := &backupOutcome{Dir: e.fresh("bk")}
 	var logbuf bytes.Buffer
 	logger := zerolog.New(&logbuf).Level(zerolog.WarnLevel)
@@ -184,7 +260,8 @@ func (e *env) runBackup(faults []Fault) *backupOutcome {
 	}
 	src := newFS("source", inner, nil)
 	src.Arm(faults)
-	mgr, err := backup.NewManager(&backup.ManagerConfig{DataStorage: src, BackupPath: out.Dir, Logger: logger})
+	mgr, err := backup.NewManager(&backup.ManagerConfig{DataStorage: src, BackupPath: out.Dir, Logger: logger,
+		SQLiteDBPath: e.sqlitePath, IcebergCatalogDBPath: e.catalogPath, ConfigPath: e.configPath})
 	if err != nil {
 		panic(err)
 	}
@@ -194,7 +271,7 @@ func (e *env) runBackup(faults []Fault) *backupOutcome {
 		bfs.Arm(faults)
 		return bfs
 	})
-	res, berr := mgr.CreateBackup(context.Background(), backup.BackupOptions{})
+	res, berr := mgr.CreateBackup(context.Background(), backup.BackupOptions{IncludeMetadata: sc.BackupMeta, IncludeConfig: sc.BackupConfig})
 	if berr != nil {
 		out.Ch.Err = berr.Error()
 	}
@@ -226,6 +303,12 @@ func (e *env) runBackup(faults []Fault) *backupOutcome {
 			panic(err)
 		}
 		out.Store = st
+		out.Extra = map[string]string{}
+		for _, k := range extraKeys {
+			if sum, ok := fileSum(filepath.Join(out.Dir, out.ID, filepath.FromSlash(k))); ok {
+				out.Extra[k] = sum
+			}
+		}
 		if b, err := os.ReadFile(filepath.Join(out.Dir, out.ID, "manifest.json")); err == nil {
 			var sm storedManifest
 			if json.Unmarshal(b, &sm) == nil {
@@ -237,10 +320,22 @@ func (e *env) runBackup(faults []Fault) *backupOutcome {
 }
 
 // runRestore restores backup id from dir into a fresh, empty target.
-func (e *env) runRestore(dir, id string, faults []Fault) *restoreOutcome {
-	out := &restoreOutcome{}
+func (e *env) runRestore(dir, id string, sc Scenario, faults []Fault) *restoreOutcome {
+	out := &restoreOutcome{Extra: map[string]string{}}
 	tdir := e.fresh("tg")
 	defer os.RemoveAll(tdir)
+	// the new installation's SQLite / catalog / config locations (outside the
+	// data directory, like in a real deployment); empty before the restore
+	idir := e.fresh("tginst")
+	defer os.RemoveAll(idir)
+	inst := map[string]string{
+		"metadata/arc.db": filepath.Join(idir, "arc.db"), "config/arc.toml": filepath.Join(idir, "arc.toml"),
+	}
+	catalog := ""
+	if e.catalogPath != "" {
+		catalog = filepath.Join(idir, "iceberg-catalog.db")
+		inst["metadata/iceberg-catalog.db"] = catalog
+	}
 	var logbuf bytes.Buffer
 	logger := zerolog.New(&logbuf).Level(zerolog.WarnLevel)
 	inner, err := storage.NewLocalBackend(tdir, zerolog.Nop())
@@ -249,7 +344,8 @@ func (e *env) runRestore(dir, id string, faults []Fault) *restoreOutcome {
 	}
 	tgt := newFS("target", inner, nil)
 	tgt.Arm(faults)
-	mgr, err := backup.NewManager(&backup.ManagerConfig{DataStorage: tgt, BackupPath: dir, Logger: logger})
+	mgr, err := backup.NewManager(&backup.ManagerConfig{DataStorage: tgt, BackupPath: dir, Logger: logger,
+		SQLiteDBPath: inst["metadata/arc.db"], IcebergCatalogDBPath: catalog, ConfigPath: inst["config/arc.toml"]})
 	if err != nil {
 		panic(err)
 	}
@@ -259,7 +355,8 @@ func (e *env) runRestore(dir, id string, faults []Fault) *restoreOutcome {
 		bfs.Arm(faults)
 		return bfs
 	})
-	res, rerr := mgr.RestoreBackup(context.Background(), backup.RestoreOptions{BackupID: id, RestoreData: true})
+	res, rerr := mgr.RestoreBackup(context.Background(), backup.RestoreOptions{BackupID: id,
+		RestoreData: !sc.SkipData, RestoreMetadata: sc.RestoreMeta, RestoreConfig: sc.RestoreConfig})
 	if rerr != nil {
 		out.Ch.Err = rerr.Error()
 	}
@@ -278,6 +375,11 @@ func (e *env) runRestore(dir, id string, faults []Fault) *restoreOutcome {
 		panic(err)
 	}
 	out.Target = tg
+	for k, p := range inst {
+		if sum, ok := fileSum(p); ok {
+			out.Extra[k] = sum
+		}
+	}
 	return out
 }
 
@@ -414,6 +516,12 @@ func (e *env) checkManifestInventory(sc Scenario, bo *backupOutcome, add func(fi
 // the target, byte-identical, at its original path, or the restore must not
 // have reported success on any channel.
 func (e *env) checkRestore(sc Scenario, bo *backupOutcome, ro *restoreOutcome, add func(finding)) {
+	e.observeInstallFiles(sc, bo, ro)
+	if sc.SkipData {
+		// the caller did not ask for the data files: nothing of the property applies
+		e.c.Count("restores_without_data_requested", 1)
+		return
+	}
 	var bad []string
 	paths := make([]string, 0, len(bo.Store))
 	for p := range bo.Store {
@@ -473,6 +581,36 @@ func (e *env) checkRestore(sc Scenario, bo *backupOutcome, ro *restoreOutcome, a
 	}
 }
 
+// observeInstallFiles: the SQLite database(s) and arc.toml are not data or
+// Iceberg metadata files in the property's sense, so this only counts what
+// happened to them (no verdict).
+func (e *env) observeInstallFiles(sc Scenario, bo *backupOutcome, ro *restoreOutcome) {
+	if bo.Manifest == nil {
+		return
+	}
+	for _, k := range extraKeys {
+		want, held := bo.Extra[k]
+		asked := sc.RestoreMeta && bo.Manifest.HasMetadata
+		if k == "config/arc.toml" {
+			asked = sc.RestoreConfig && bo.Manifest.HasConfig
+		}
+		if !held || !asked {
+			if _, ok := ro.Extra[k]; ok {
+				e.c.Count("install_files_written_although_not_requested_or_not_held", 1)
+			}
+			continue
+		}
+		switch got, ok := ro.Extra[k]; {
+		case ok && got == want:
+			e.c.Count("install_files_restored_identical", 1)
+		case ro.Ch.success():
+			e.c.Count("install_files_missing_after_reported_success", 1)
+		default:
+			e.c.Count("install_files_missing_after_reported_failure", 1)
+		}
+	}
+}
+
 func clone(m map[string]any) map[string]any {
 	o := make(map[string]any, len(m)+4)
 	for k, v := range m {
@@ -505,8 +643,8 @@ func (e *env) runScenario(sc Scenario, base *backupOutcome, add func(finding)) *
 	e.c.Eval()
 	bo := base
 	own := false
-	if bo == nil || len(sc.BackupFaults) > 0 {
-		bo = e.runBackup(sc.BackupFaults)
+	if bo == nil || sc.Kind == "backup_fault" || sc.Kind == "roundtrip" {
+		bo = e.runBackup(sc)
 		own = true
 		completed, missing := e.checkBackup(sc, bo, add)
 		if len(sc.BackupFaults) == 0 {
@@ -518,7 +656,7 @@ func (e *env) runScenario(sc Scenario, base *backupOutcome, add func(finding)) *
 		if !completed || bo.Manifest == nil {
 			// nothing restorable was produced; a restore attempt must fail too
 			if bo.ID != "" {
-				ro := e.runRestore(bo.Dir, bo.ID, nil)
+				ro := e.runRestore(bo.Dir, bo.ID, sc, nil)
 				e.checkRestore(sc, bo, ro, add)
 			}
 			if sc.Kind != "roundtrip" {
@@ -530,47 +668,92 @@ func (e *env) runScenario(sc Scenario, base *backupOutcome, add func(finding)) *
 			e.c.Count("restores_of_incomplete_backup", 1)
 		}
 	}
-	ro := e.runRestore(bo.Dir, bo.ID, sc.RestoreFaults)
+	ro := e.runRestore(bo.Dir, bo.ID, sc, sc.RestoreFaults)
 	e.checkRestore(sc, bo, ro, add)
-	if len(sc.RestoreFaults) > 0 && len(ro.Fired) > 0 {
+	if (len(sc.RestoreFaults) > 0 && len(ro.Fired) > 0) || sc.Kind == "restore_options" {
 		e.c.Nontrivial(scenarioKey(e.t, sc))
 	}
+	e.c.Count(fmt.Sprintf("restores_with_options_data=%v_metadata=%v_config=%v", !sc.SkipData, sc.RestoreMeta, sc.RestoreConfig), 1)
 	if own && sc.Kind != "roundtrip" {
 		os.RemoveAll(bo.Dir)
 	}
 	return bo
 }
 
-// scenariosFor enumerates the fault scenarios of one tree, given the files its
-// fault-free backup holds.
+// scenariosFor enumerates the scenarios of one tree after its fault-free round
+// trip, given the files its base backup (taken with IncludeMetadata and
+// IncludeConfig) holds.
 func scenariosFor(r *rand.Rand, files []string) []Scenario {
 	var out []Scenario
 	n := len(files)
-	// (b) restore: every file once per failure kind, then list/manifest, then subsets
-	for _, p := range files {
-		out = append(out,
-			Scenario{Kind: "restore_fault", RestoreFaults: []Fault{{Store: "backup", Op: "read", Key: "data/" + p, Mode: pickMode(r)}}},
-			Scenario{Kind: "restore_fault", RestoreFaults: []Fault{{Store: "target", Op: "write", Key: p, Mode: pickMode(r)}}})
+	// restore-only scenarios run against the base backup
+	rs := func(combo [2]bool, faults ...Fault) Scenario {
+		return Scenario{Kind: "restore_fault", BackupMeta: true, BackupConfig: true, RestoreFaults: faults}.withRestore(combo)
 	}
+	rd := func(p string) Fault {
+		return Fault{Store: "backup", Op: "read", Key: "data/" + p, Mode: pickMode(r)}
+	}
+	wr := func(p string) Fault { return Fault{Store: "target", Op: "write", Key: p, Mode: pickMode(r)} }
+
+	// (a') fault-free restores under every other RestoreOptions combination the
+	// API accepts (the round trip itself used data+metadata+config)
+	for _, data := range []bool{true, false} {
+		for _, combo := range restoreCombos {
+			if data && combo == [2]bool{true, true} {
+				continue
+			}
+			sc := Scenario{Kind: "restore_options", BackupMeta: true, BackupConfig: true, SkipData: !data}.withRestore(combo)
+			out = append(out, sc)
+		}
+	}
+	// (b) restore: every file once per failure kind, the RestoreOptions
+	// combination rotating so that each kind meets each combination on many files
+	for i, p := range files {
+		out = append(out, rs(restoreCombos[i%4], rd(p)), rs(restoreCombos[(i+2)%4], wr(p)))
+	}
+	// ... and the full (failure kind x combination) product on two files
+	for _, i := range r.Perm(n)[:min(2, n)] {
+		for _, combo := range restoreCombos {
+			out = append(out, rs(combo, rd(files[i])), rs(combo, wr(files[i])))
+		}
+	}
+	// list / manifest failures under every combination
+	for _, combo := range restoreCombos {
+		out = append(out,
+			rs(combo, Fault{Store: "backup", Op: "list", Mode: "error"}),
+			rs(combo, Fault{Store: "backup", Op: "read", Key: "manifest.json", Mode: "error"}))
+	}
+	// failures on the SQLite / config part, alone and together with a data file
+	all := [2]bool{true, true}
 	out = append(out,
-		Scenario{Kind: "restore_fault", RestoreFaults: []Fault{{Store: "backup", Op: "list", Mode: "error"}}},
-		Scenario{Kind: "restore_fault", RestoreFaults: []Fault{{Store: "backup", Op: "read", Key: "manifest.json", Mode: "error"}}})
+		rs(all, Fault{Store: "backup", Op: "read", Key: "metadata/arc.db", Mode: "error"}),
+		rs(all, Fault{Store: "backup", Op: "read", Key: "config/arc.toml", Mode: "error"}),
+		rs(all, wr(files[r.IntN(n)]), Fault{Store: "backup", Op: "read", Key: "metadata/arc.db", Mode: "error"}),
+		rs(all, rd(files[r.IntN(n)]), Fault{Store: "backup", Op: "read", Key: "config/arc.toml", Mode: "error"}),
+		rs(all, rd(files[r.IntN(n)]), Fault{Store: "backup", Op: "read", Key: "metadata/iceberg-catalog.db", Mode: "error"}))
 	for s := 0; s < 5; s++ {
 		k := 1 + r.IntN(max(1, n/3))
 		var fs []Fault
 		for _, i := range r.Perm(n)[:k] {
 			if r.IntN(2) == 0 {
-				fs = append(fs, Fault{Store: "backup", Op: "read", Key: "data/" + files[i], Mode: pickMode(r)})
+				fs = append(fs, rd(files[i]))
 			} else {
-				fs = append(fs, Fault{Store: "target", Op: "write", Key: files[i], Mode: pickMode(r)})
+				fs = append(fs, wr(files[i]))
 			}
 		}
-		out = append(out, Scenario{Kind: "restore_fault", RestoreFaults: fs})
+		out = append(out, rs(restoreCombos[r.IntN(4)], fs...))
 	}
 	// (c) backup: every file unreadable once, then subsets around the 10 % skip
-	// ceiling, then list / backup-store write failures
+	// ceiling, then list / backup-store write failures. BackupOptions and the
+	// RestoreOptions of the follow-up restore rotate through all combinations.
+	q := 0
+	bs := func(faults ...Fault) Scenario {
+		q++
+		sc := Scenario{Kind: "backup_fault", BackupFaults: faults, BackupMeta: q&1 != 0, BackupConfig: q&2 != 0}
+		return sc.withRestore(restoreCombos[(q/4)%4])
+	}
 	for _, p := range files {
-		out = append(out, Scenario{Kind: "backup_fault", BackupFaults: []Fault{{Store: "source", Op: "read", Key: p, Mode: pickMode(r)}}})
+		out = append(out, bs(Fault{Store: "source", Op: "read", Key: p, Mode: pickMode(r)}))
 	}
 	tenth := n / 10
 	for _, k := range []int{2, tenth, tenth + 1, 1 + r.IntN(max(1, n/3)), 1 + r.IntN(max(1, tenth))} {
@@ -584,18 +767,27 @@ func scenariosFor(r *rand.Rand, files []string) []Scenario {
 		for _, i := range r.Perm(n)[:k] {
 			fs = append(fs, Fault{Store: "source", Op: "read", Key: files[i], Mode: pickMode(r)})
 		}
-		out = append(out, Scenario{Kind: "backup_fault", BackupFaults: fs})
+		out = append(out, bs(fs...))
 	}
-	out = append(out, Scenario{Kind: "backup_fault", BackupFaults: []Fault{{Store: "source", Op: "list", Mode: "error"}}})
+	out = append(out, bs(Fault{Store: "source", Op: "list", Mode: "error"}))
 	for s := 0; s < 3; s++ {
-		out = append(out, Scenario{Kind: "backup_fault", BackupFaults: []Fault{{Store: "backup", Op: "write", Key: "data/" + files[r.IntN(n)], Mode: pickMode(r)}}})
+		out = append(out, bs(Fault{Store: "backup", Op: "write", Key: "data/" + files[r.IntN(n)], Mode: pickMode(r)}))
 	}
-	out = append(out, Scenario{Kind: "backup_fault", BackupFaults: []Fault{{Store: "backup", Op: "write", Key: "manifest.json", Mode: "error"}}})
+	out = append(out, bs(Fault{Store: "backup", Op: "write", Key: "manifest.json", Mode: "error"}))
+	// the SQLite / config copy fails (non-fatal by design: the manifest then says
+	// has_metadata / has_config = false), together with a skipped data file
+	for _, k := range []string{"metadata/arc.db", "config/arc.toml"} {
+		sc := bs(Fault{Store: "backup", Op: "write", Key: k, Mode: "error"}, Fault{Store: "source", Op: "read", Key: files[r.IntN(n)], Mode: "error"})
+		sc.BackupMeta, sc.BackupConfig, sc.RestoreMeta, sc.RestoreConfig = true, true, true, true
+		out = append(out, sc)
+	}
 	// a skipped file at backup time followed by a failing restore
-	i, j := r.IntN(n), r.IntN(n)
-	out = append(out, Scenario{Kind: "backup_fault",
-		BackupFaults:  []Fault{{Store: "source", Op: "read", Key: files[i], Mode: "error"}},
-		RestoreFaults: []Fault{{Store: "target", Op: "write", Key: files[j], Mode: "error"}}})
+	for _, combo := range restoreCombos {
+		sc := bs(Fault{Store: "source", Op: "read", Key: files[r.IntN(n)], Mode: "error"})
+		sc.BackupMeta, sc.BackupConfig = true, true
+		sc.RestoreFaults = []Fault{wr(files[r.IntN(n)])}
+		out = append(out, sc.withRestore(combo))
+	}
 	return out
 }
 
@@ -617,6 +809,7 @@ func runTree(c *vlib.Ctx, scratch string, idx int, only *Scenario) []finding {
 		panic(err)
 	}
 	e := &env{c: c, scratch: scratch, t: t, srcDir: srcDir}
+	e.makeInstallFiles(r)
 	defer func() {
 		ents, _ := os.ReadDir(scratch)
 		for _, d := range ents {
@@ -635,10 +828,11 @@ func runTree(c *vlib.Ctx, scratch string, idx int, only *Scenario) []finding {
 	}
 
 	// (a) fault-free round trip
-	base := e.runScenario(Scenario{Kind: "roundtrip"}, nil, add)
+	base := e.runScenario(Scenario{Kind: "roundtrip", BackupMeta: true, BackupConfig: true, RestoreMeta: true, RestoreConfig: true}, nil, add)
 	if idx < 4 {
 		c.Sample(map[string]any{"tree": idx, "files": len(t.Files), "data_and_metadata": len(t.Req),
-			"in_backup": len(base.Store), "example_paths": head(t.Req, 3), "backup_channels": base.Ch})
+			"in_backup": len(base.Store), "example_paths": head(t.Req, 3), "backup_channels": base.Ch,
+			"backup_install_files": base.Extra, "separate_iceberg_catalog": e.catalogPath != ""})
 	}
 	if base.Manifest == nil || len(base.Store) == 0 {
 		return fnd // already reported by checkBackup
@@ -655,11 +849,11 @@ func runTree(c *vlib.Ctx, scratch string, idx int, only *Scenario) []finding {
 }
 
 func checkC13(c *vlib.Ctx) {
-	c.Rule("random storage trees (2-3 databases incl. hostile names such as 'data' or a backup-id look-alike, 1-3 measurements each incl. one named 'metadata', day/hour directories with 1-3 parquet-named files, compacted day files, Iceberg table directories with metadata.json/avro/version-hint/puffin files and Iceberg-owned parquet, hidden/staging/text files; sizes 0..64 KiB, unique content) are backed up and restored by the real backup.Manager over fault-injecting LocalBackend wrappers. Per tree: a fault-free round trip; a restore with a read failure from the backup store and a write failure on the target on EVERY backed-up file once, list and manifest failures, 5 random subsets; a backup with a source read failure on EVERY file once, 5 subsets around the skip ceiling, list failure, backup-store write failures; each completed backup is restored into an EMPTY target. non-trivial = distinct (tree, scenario) pairs in which the injected fault really fired (or the fault-free round trip)")
+	c.Rule("random storage trees (2-3 databases incl. hostile names such as 'data' or a backup-id look-alike, 1-3 measurements each incl. one named 'metadata', day/hour directories with 1-3 parquet-named files, compacted day files, Iceberg table directories with metadata.json/avro/version-hint/puffin files and Iceberg-owned parquet, hidden/staging/text files; sizes 0..64 KiB, unique content) are backed up and restored by the real backup.Manager over fault-injecting LocalBackend wrappers. Per tree: a fault-free round trip; a restore with a read failure from the backup store and a write failure on the target on EVERY backed-up file once, list and manifest failures, 5 random subsets; a backup with a source read failure on EVERY file once, 5 subsets around the skip ceiling, list failure, backup-store write failures; each completed backup is restored into an EMPTY target. Backups are taken over a real SQLite database (for half of the trees also a separate Iceberg catalog database) and an arc.toml, with every BackupOptions{IncludeMetadata,IncludeConfig} combination; restores run under every RestoreOptions{RestoreData,RestoreMetadata,RestoreConfig} combination: fault-free for all 8, the per-file fault enumeration rotating through the 4 combinations with RestoreData=true, the full kind x combination product on 2 files, list/manifest failures under all 4, failures on the SQLite/config copies alone and combined with a data-file failure. non-trivial = distinct (tree, scenario) pairs in which the injected fault really fired (or the fault-free round trip)")
 	c.Assume("ground truth is the generator's path->sha256 map; backup and target contents are read by walking the real directories")
 	c.Assume("'reports success' = RestoreBackup/CreateBackup returned a nil error OR the published progress status is 'completed'; 'records incompleteness' = skipped_files > 0 in the stored manifest.json (and in the manifest handed to the synchronous caller)")
 	c.Assume("the backup destination backend is created inside NewManager; it is wrapped by swapping the unexported field through reflect (injection only)")
-	c.Assume("SQLite metadata and arc.toml backup/restore are outside the property and switched off")
+	c.Assume("the SQLite database(s) and arc.toml are real files backed up / restored through BackupOptions / RestoreOptions; they are not data or Iceberg metadata files in the property's sense, so what happens to them is counted, not judged; with RestoreData=false nothing of the property applies")
 
 	scratch := vlib.TempDir("c13")
 	defer os.RemoveAll(scratch)
